@@ -331,6 +331,18 @@ func ruleRevert(c *Ctx, r *Reporter) {
 				}
 			}
 		}
+		// the inverse of the increment: revision-- (equivalent to restoring the saved value when
+		// exactly one increment precedes it, which the per-path delta decides)
+		isDec := func(st *ssa.Store) bool {
+			if bo, ok := st.Val.(*ssa.BinOp); ok && bo.Op == token.SUB {
+				if x, ok := loadOfField(bo.X, "tableEntry", "revision"); ok && x == e {
+					if k, ok := constInt(bo.Y); ok && k == 1 {
+						return true
+					}
+				}
+			}
+			return false
+		}
 		isInc := func(st *ssa.Store) bool {
 			for _, i := range incs {
 				if i == st {
@@ -376,6 +388,8 @@ func ruleRevert(c *Ctx, r *Reporter) {
 								st.revDelta++
 							case isRestore(x):
 								st.revDelta = 0
+							case isDec(x):
+								st.revDelta--
 							default:
 								st.badRestore = c.posStr(instrPos(x))
 							}
